@@ -211,7 +211,7 @@ func trunc(s string, n int) string {
 func (w *Workspace) goRun(args ...string) (string, error) {
 	cmd := exec.Command("go", args...)
 	cmd.Dir = w.Dir
-	cmd.Env = plugin.GoEnv()
+	cmd.Env = plugin.GeneratedEnv()
 	var out bytes.Buffer
 	cmd.Stdout = &out
 	cmd.Stderr = &out
